@@ -728,7 +728,7 @@ PROPS = {
     'C01': dict(lean_modules=['SfxProps.C01'], bins=['arith'], profiles=['chk', 'rel'], gen=gen_C01, thorough_all_fracs=True,
                 exhaustive_parts=['mul_overflow / div_overflow helpers: every operand pair of every 8-bit layout (18 x 65 536), both tiers, both profiles']),
     'C06': dict(lean_modules=['SfxProps.C06', 'SfxProps.C06Spec'], bins=['arith'], profiles=['chk', 'rel'], gen=gen_C06, thorough_all_fracs=True),
-    'C07': dict(lean_modules=['SfxProps.C07', 'SfxProps.C07Forms'], bins=['arith'], profiles=['chk', 'rel'], gen=gen_C07x, thorough_all_fracs=True),
+    'C07': dict(lean_modules=['SfxProps.C07', 'SfxProps.C07Forms', 'SfxProps.C07Spec'], bins=['arith'], profiles=['chk', 'rel'], gen=gen_C07x, thorough_all_fracs=True),
     'XBITS': dict(lean_modules=['SfxProps.C11Bits'], bins=['arith'], profiles=['chk', 'rel'], gen=gen_XBITS),   # not a property: a part of C11's corpus
     'C18': dict(lean_modules=['SfxProps.C18', 'SfxProps.C18Entry'], bins=['wrap', 'conv', 'text'], profiles=['chk', 'rel'], gen=gen_C18, thorough_all_fracs=True,
                 rule='programs of 1..12 Wrapping operations (every impl variant is a distinct step kind); de-duplicated per unit; '
